@@ -215,6 +215,22 @@ def rmclientrq (w : World) (o : Nat) (id : Nat) : World :=
           let w := updRq w o fun r => { r with frm := none }
           freerq w o'
 
+/-- secret of the client block behind association `ci` -/
+def secretOfCli (w : World) (ci : Nat) : Bytes :=
+  match getCli w ci with
+  | some c => (w.cliConfs.getD c.conf { name := [], type := 0, secret := [], dup := 0 }).secret
+  | none => []
+
+/-- the bytes `sendreply` will queue: the stored reply if there is one, else the message serialised
+    with the client's secret; `none` = radmsg2buf failed -/
+def replyBytes (w : World) (r : Rq) (secret : Bytes) : Option Bytes :=
+  match r.replybuf with
+  | some b => some b
+  | none =>
+    match r.msg with
+    | some m => (match serialize w.H m (some secret) with | .ok b _ => some b | _ => none)
+    | none => none
+
 /-- `sendreply(rq)` (the caller has already taken the reference it passes) -/
 def sendreply (w : World) (o : Nat) : World :=
   match getRq w o with
@@ -223,21 +239,11 @@ def sendreply (w : World) (o : Nat) : World :=
     match r.frm with
     | none => w
     | some ci =>
-      let secret := match getCli w ci with
-        | some c => (w.cliConfs.getD c.conf { name := [], type := 0, secret := [], dup := 0 }).secret
-        | none => []
-      let (rb, okSer) : Option Bytes × Bool :=
-        match r.replybuf with
-        | some b => (some b, true)
-        | none =>
-          match r.msg with
-          | some m => (match serialize w.H m (some secret) with
-                       | .ok b _ => (some b, true)
-                       | _ => (none, false))
-          | none => (none, false)
+      let rb := replyBytes w r (secretOfCli w ci)
       let w := setRq w o { r with replybuf := rb, msg := none }
-      if !okSer then freerq w o
-      else updCli w ci fun c => { c with replyq := c.replyq ++ [o] }
+      match rb with
+      | none => freerq w o
+      | some _ => updCli w ci fun c => { c with replyq := c.replyq ++ [o] }
 
 /-- `respond(rq, code, addattr, add_msg_auth)` -/
 def respond (w : World) (o : Nat) (code : UInt8) (addattr : Option Tlv) (addMA : Bool) : World :=
@@ -691,6 +697,31 @@ def createStatsrvRq (w : World) (si : Nat) : World × Nat :=
   let m : Msg := { code := 12, id := 0, auth := auth, attrs := [{ t := 80, v := zeros 16 }] }
   (updRq w o fun r => { r with msg := some m, to := some si }, o)
 
+/-- what one pass of the writer does with one occupied slot -/
+inductive SlotAct
+  | wait                         -- not yet expired: only contributes to the wake-up time
+  | dropProbe                    -- connection was reset: a pending Status-Server probe is discarded
+  | abandon                      -- all tries used: released, loss accounting
+  | send (tries' expiry' : Nat)  -- (re)transmit
+deriving DecidableEq, Repr
+
+/-- `tries` after the `if (do_resend) { if (rqout->tries > 0) rqout->tries--; }` step -/
+def triesAfterReset (doResend : Bool) (tries : Nat) : Nat := if doResend ∧ tries > 0 then tries - 1 else tries
+
+/-- the per-slot decision of the clientwr loop body (pure): retry count / interval logic -/
+def slotDecision (doResend : Bool) (now : Nat) (sl : Slot) (isProbe : Bool) (retryCount retryInterval : Nat) : SlotAct :=
+  let tries := triesAfterReset doResend sl.tries
+  if !doResend ∧ now < sl.expiry then .wait
+  else if doResend ∧ isProbe then .dropProbe
+  else if tries = (if isProbe then 1 else retryCount + 1) then .abandon
+  else .send (tries + 1) (now + retryInterval)
+
+/-- loss accounting when a request is abandoned, by status-server mode -/
+def lossOnAbandon (s : Server) (isProbe : Bool) : Server :=
+  if s.ss = ssOn ∨ s.ss = ssMinimal then (if isProbe then incLost s else s)
+  else if s.ss = ssAuto ∧ isProbe then (if s.lastreply ≥ s.laststatsrv then { s with ss := ssOff } else s)
+  else incLost s
+
 /-- the `for (i = 0; i < MAX_REQUESTS; i++)` scan of one pass, from slot `i` -/
 def writerScan (w : World) (si : Nat) (doResend : Bool) : Nat → Nat → World
   | 0, _ => w
@@ -702,29 +733,28 @@ def writerScan (w : World) (si : Nat) (doResend : Bool) : Nat → Nat → World
       match sl.rq, sl.rq.bind (getRq w) with
       | some _, some rq =>
         let isProbe : Bool := match rq.buf with | some b => decide (b.getD 0 0 = 12) | none => false
-        let tries := if doResend ∧ sl.tries > 0 then sl.tries - 1 else sl.tries
+        let tries := triesAfterReset doResend sl.tries
         let w := updSrv w si fun s => { s with slots := s.slots.set i { sl with tries := tries } }
-        if !doResend ∧ w.now < sl.expiry then
+        match slotDecision doResend w.now sl isProbe s.conf.retryCount s.conf.retryInterval with
+        | .wait =>
           let w := updSrv w si fun s => { s with timeout := if s.timeout = 0 ∨ sl.expiry < s.timeout then sl.expiry else s.timeout }
           writerScan w si doResend fuel (i + 1)
-        else
+        | act =>
           let w := updSrv w si fun s =>
             { s with ssRequested := s.ssRequested || (tries > 0 ∧ w.now - s.lastrcv > s.conf.retryInterval ∧ !doResend) }
-          if doResend ∧ isProbe then writerScan (freerqoutdata w si i) si doResend fuel (i + 1)
-          else if tries = (if isProbe then 1 else s.conf.retryCount + 1) then
-            let w := updSrv w si fun s =>
-              if s.ss = ssOn ∨ s.ss = ssMinimal then (if isProbe then incLost s else s)
-              else if s.ss = ssAuto ∧ isProbe then (if s.lastreply ≥ s.laststatsrv then { s with ss := ssOff } else s)
-              else incLost s
+          match act with
+          | .dropProbe => writerScan (freerqoutdata w si i) si doResend fuel (i + 1)
+          | .abandon =>
+            let w := updSrv w si fun s => lossOnAbandon s isProbe
             writerScan (freerqoutdata w si i) si doResend fuel (i + 1)
-          else
-            let expiry := w.now + s.conf.retryInterval
+          | .send tries' expiry =>
             let w := updSrv w si fun s =>
-              { s with slots := s.slots.set i { sl with tries := tries + 1, expiry := expiry },
+              { s with slots := s.slots.set i { sl with tries := tries', expiry := expiry },
                        timeout := if s.timeout = 0 ∨ expiry < s.timeout then expiry else s.timeout }
             let w := event w s!"send:{String.fromUTF8! ⟨s.conf.name.toArray⟩}:{toHex (rq.buf.getD [])}"
             let w := if w.radputOk then w else updSrv w si incLost
             writerScan w si doResend fuel (i + 1)
+          | .wait => writerScan w si doResend fuel (i + 1)
       | _, _ => writerScan w si doResend fuel (i + 1)
 
 /-- one pass of the `for(;;)` body after the wait -/
